@@ -107,6 +107,7 @@ func (c07) Plan(tier string, seed int64) []mon.Workload {
 	return []mon.Workload{
 		{Name: "strings-exhaustive", N: n, Exhaustive: true},
 		{Name: "strings-random", N: rnd},
+		{Name: "code-points", N: int64(len(c07CodePoints) * len(c07CPForms) * len(c07CPContexts) * len(c07Styles)), Exhaustive: true},
 		{Name: "ints", N: int64(len(c07IntList)), Exhaustive: true},
 		{Name: "floats", N: fl},
 		{Name: "keywords", N: int64(len(c07Keywords)), Exhaustive: true},
@@ -245,7 +246,54 @@ func classifyString(sp, style string) (litClass, string) {
 	}
 }
 
+// code-points (exhaustive): every boundary of the UTF-8 encoding and of the
+// escape rules (0x7f/0x80, 0xff/0x100, 0x7ff/0x800, the surrogate range, the
+// last valid code point and the first invalid one) x every way to write it
+// (\u, \U, raw, \x, octal) x three surroundings x the five quote styles.
+var c07CodePoints = []rune{0, 1, 0x1f, 0x20, 0x22, 0x27, 0x5c, 0x60, 0x7e, 0x7f, 0x80, 0x81, 0xbf, 0xc0, 0xff, 0x100, 0x7ff, 0x800, 0xfff, 0xd7ff, 0xd800, 0xdfff, 0xe000, 0xfffd, 0xfffe, 0xffff,
+	0x10000, 0x1f600, 0x10ffff, 0x110000}
+var c07CPForms = []string{"u", "U", "raw", "x", "octal"}
+var c07CPContexts = []string{"%s", "a%sb", "\\t%s\\n", "%s%s"}
+
+func c07CodePoint(i int64) (sp, style string) {
+	style = c07Styles[i%int64(len(c07Styles))]
+	i /= int64(len(c07Styles))
+	ctx := c07CPContexts[int(i)%len(c07CPContexts)]
+	i /= int64(len(c07CPContexts))
+	form := c07CPForms[int(i)%len(c07CPForms)]
+	cp := c07CodePoints[int(i)/len(c07CPForms)]
+	var frag string
+	switch form {
+	case "u":
+		if cp > 0xffff {
+			return "", style
+		}
+		frag = fmt.Sprintf("\\u%04x", cp)
+	case "U":
+		frag = fmt.Sprintf("\\U%08x", cp)
+	case "raw":
+		if cp > 0x10ffff || cp >= 0xd800 && cp <= 0xdfff {
+			return "", style
+		}
+		frag = string(cp)
+	case "x":
+		if cp > 0xff {
+			return "", style
+		}
+		frag = fmt.Sprintf("\\x%02x", cp)
+	default:
+		if cp > 0xff {
+			return "", style
+		}
+		frag = fmt.Sprintf("\\%03o", cp)
+	}
+	return style + strings.ReplaceAll(ctx, "%s", frag) + style, style
+}
+
 func c07String(c *mon.Ctx, workload string, i int64) (sp, style string) {
+	if workload == "code-points" {
+		return c07CodePoint(i)
+	}
 	if workload == "strings-exhaustive" {
 		style = c07Styles[i%int64(len(c07Styles))]
 		seq := decodeSeq(i/int64(len(c07Styles)), len(c07Alphabet), c07StrLen(c.Tier))
@@ -271,7 +319,7 @@ func (k c07) Describe(c *mon.Ctx, workload string, i int64) any {
 
 func (k c07) spelling(c *mon.Ctx, workload string, i int64) string {
 	switch workload {
-	case "strings-exhaustive", "strings-random":
+	case "strings-exhaustive", "strings-random", "code-points":
 		sp, _ := c07String(c, workload, i)
 		return sp
 	case "ints":
@@ -301,9 +349,9 @@ func c07Parse(sp string) (node *gt.T, obs drive.ParseObs, note string) {
 
 func (k c07) Run(c *mon.Ctx, workload string, i int64) {
 	switch workload {
-	case "strings-exhaustive", "strings-random":
+	case "strings-exhaustive", "strings-random", "code-points":
 		sp, style := c07String(c, workload, i)
-		if !utf8.ValidString(sp) {
+		if sp == "" || !utf8.ValidString(sp) {
 			return
 		}
 		class, want := classifyString(sp, style)
